@@ -58,18 +58,33 @@ func (c *timedLister) List(ctx context.Context, _ metav1.ListOptions) (runtime.O
 	return kv.PodList(nil, "1"), nil
 }
 
-func runListerPoint(t *testing.T, tr *tracer, idx int, period, latency, delay time.Duration, stopFrac int, useCancel bool) {
+// exactAt >= 0 stops the lister at exactly that instant (microseconds since the start) instead of at the horizon;
+// pre stops it before it is created (a context that is already cancelled, or a stop channel already closed).
+// The start times of the List calls are returned (the library's fuzz is a function of seed and idx, so that a second
+// run of the same point sees the same instants).
+func runListerPoint(t *testing.T, tr *tracer, idx int, period, latency, delay time.Duration, stopFrac int, useCancel bool, exactAt int64, pre bool, quiet bool) (starts []int64) {
 	synctest.Test(t, func(t *testing.T) {
 		reseed(*flagSeed, idx)
 		ctx, cancel := context.WithCancel(context.Background())
 		defer cancel()
 		stopch := make(chan struct{})
+		if pre {
+			if useCancel {
+				cancel()
+			} else {
+				close(stopch)
+			}
+		}
 		cl := &timedLister{latency: latency, start: time.Now()}
 		start := cl.start
 		l := kcache.VerifNewLister(ctx, &kv.Log{}, stopch, period, cl)
 		fuzz := int64(float64(period.Microseconds()) * kcache.VerifDefaultRefreshFuzz)
-		tr.line(kv.L("scenario", fmt.Sprint(idx), "lister"))
-		tr.line(kv.L("lcfg", fmt.Sprint(period.Microseconds()), fmt.Sprint(latency.Microseconds()), fmt.Sprint(delay.Microseconds()),
+		line := tr.line
+		if quiet {
+			line = func(string) {}
+		}
+		line(kv.L("scenario", fmt.Sprint(idx), "lister"))
+		line(kv.L("lcfg", fmt.Sprint(period.Microseconds()), fmt.Sprint(latency.Microseconds()), fmt.Sprint(delay.Microseconds()),
 			fmt.Sprint(period.Microseconds()-fuzz), fmt.Sprint(period.Microseconds()+fuzz+1)))
 		var consumes []int64
 		var cmu sync.Mutex
@@ -90,13 +105,23 @@ func runListerPoint(t *testing.T, tr *tracer, idx int, period, latency, delay ti
 		}()
 		cycle := period + latency + delay
 		horizon := 12*cycle + cycle*time.Duration(stopFrac)/7
-		time.Sleep(horizon)
-		synctest.Wait()
-		stopAt := time.Since(start).Microseconds()
-		if useCancel {
-			cancel()
+		if pre {
+			horizon = 0
+		}
+		if exactAt >= 0 {
+			// no synctest.Wait before the stop: the stop and whatever the lister does at this instant race
+			time.Sleep(time.Duration(exactAt) * time.Microsecond)
 		} else {
-			close(stopch)
+			time.Sleep(horizon)
+			synctest.Wait()
+		}
+		stopAt := time.Since(start).Microseconds()
+		if !pre {
+			if useCancel {
+				cancel()
+			} else {
+				close(stopch)
+			}
 		}
 		synctest.Wait()
 		doneNow := isClosed(l.Done())
@@ -106,22 +131,26 @@ func runListerPoint(t *testing.T, tr *tracer, idx int, period, latency, delay ti
 		doneSoon := isClosed(l.Done())
 		cl.mu.Lock()
 		for _, c := range cl.calls {
-			tr.line(kv.L("llist", fmt.Sprint(c[0]), fmt.Sprint(c[1]), fmt.Sprint(c[2])))
+			line(kv.L("llist", fmt.Sprint(c[0]), fmt.Sprint(c[1]), fmt.Sprint(c[2])))
+			starts = append(starts, c[0])
 		}
 		maxAct := cl.maxAct
 		cl.mu.Unlock()
 		cmu.Lock()
 		for _, c := range consumes {
-			tr.line(kv.L("lconsume", fmt.Sprint(c)))
+			line(kv.L("lconsume", fmt.Sprint(c)))
 		}
 		cmu.Unlock()
-		tr.line(kv.L("lstop", fmt.Sprint(stopAt), kv.Bool(doneNow), kv.Bool(doneSoon), fmt.Sprint(maxAct), kv.Bool(useCancel)))
-		tr.stats["points"]++
+		line(kv.L("lstop", fmt.Sprint(stopAt), kv.Bool(doneNow), kv.Bool(doneSoon), fmt.Sprint(maxAct), kv.Bool(useCancel)))
+		if !quiet {
+			tr.stats["points"]++
+		}
 		cancel()
 		time.Sleep(5 * time.Second)
 		synctest.Wait()
 		<-consumerDone
 	})
+	return starts
 }
 
 func engineLister(t *testing.T, tr *tracer) {
@@ -141,7 +170,27 @@ func engineLister(t *testing.T, tr *tracer) {
 					continue
 				}
 				tr.pending(kv.L("scenario", fmt.Sprint(idx), "lister"))
-				runListerPoint(t, tr, idx, p, p*time.Duration(lr)/100, p*time.Duration(dr)/100, r.Intn(7), r.Chance(1, 2))
+				lat, del, frac, useCancel := p*time.Duration(lr)/100, p*time.Duration(dr)/100, r.Intn(7), r.Chance(1, 2)
+				switch r.Intn(4) {
+				case 0:
+					// stop at the very instant a List call starts (the tick is due and the stop arrives): learn the
+					// instants from a silent run of the same point, then stop exactly there
+					starts := runListerPoint(t, tr, idx, p, lat, del, frac, useCancel, -1, false, true)
+					if len(starts) > 3 {
+						runListerPoint(t, tr, idx, p, lat, del, frac, useCancel, starts[2+r.Intn(len(starts)-3)], false, false)
+						break
+					}
+					fallthrough
+				case 1:
+					if r.Chance(1, 3) {
+						// stopped before it starts
+						runListerPoint(t, tr, idx, p, lat, del, frac, useCancel, -1, true, false)
+						break
+					}
+					fallthrough
+				default:
+					runListerPoint(t, tr, idx, p, lat, del, frac, useCancel, -1, false, false)
+				}
 				idx++
 			}
 		}
